@@ -34,5 +34,6 @@ pub fn __str_contains(hay: &str, needle: &str) -> (r: bool) ensures r == str_con
 pub assume_specification<T: std::cmp::PartialEq> [<[T]>::contains] (s: &[T], x: &T) -> (r: bool)
     ensures <T as PartialEqSpec>::obeys_eq_spec() ==> r == exists|i: int| 0 <= i < s@.len() && (#[trigger] s@[i]).eq_spec(x);
 pub assume_specification<I: std::slice::SliceIndex<str>> [str::get] (_0: &str, _1: I) -> std::option::Option<&<I as std::slice::SliceIndex<str>>::Output>;
-pub assume_specification [i64::checked_neg] (x: i64) -> (r: std::option::Option<i64>)
-    ensures r == (if x == i64::MIN { None::<i64> } else { Some((0 - x) as i64) });
+/// `key.to_string()` (Display of a map key, core::fmt): R6 wrapper; the text of a string key is the string itself (ASSUMED)
+#[verifier::external_body]
+pub fn __key_to_string(k: &Key) -> (r: String) ensures r@ == key_text(kview(*k)) { unimplemented!() }
